@@ -178,11 +178,12 @@ def render_cfg(hs, var):
     return "\n".join(out) + "\n"
 
 
-def view_of(home, var):
-    """what the generated config says for the host: dict(port, user, ident) — host block, gaps filled from `Host *`"""
+def view_of(home, var, own=True):
+    """what the generated config says for the host: dict(port, user, ident) — host block (only if the file was
+    written for this host, `own`), gaps filled from `Host *`"""
     _, blk, star = VARIANTS[var]
     res = {"port": None, "user": "", "ident": ""}
-    for b in (blk, star):
+    for b in ((blk if own else None), star):
         if b is None:
             continue
         if not res["port"] and b[0]:
@@ -301,7 +302,9 @@ def mk(**kw):
 
 def materialise(w, c):
     """-> (constructor kwargs, HOME, facts) ; facts = what the harness knows about the world for this case"""
-    hs = c["host"].strip()
+    hs_self = c["host"].strip()
+    hs = c["owner"].strip() if c.get("owner") is not None else hs_self     # the host the config files are written for
+    own = hs == hs_self
     hvar = c["hvar"] if usable_host_in_cfg(hs) or VARIANTS[c["hvar"]][1] is None else 0
     xvar = c["xvar"] if usable_host_in_cfg(hs) or VARIANTS[c["xvar"]][1] is None else 0
     home = w.home(c["home"], hs, hvar)
@@ -332,10 +335,10 @@ def materialise(w, c):
     # the world as the constructor can see it
     views = {}
     if os.path.isfile(xfile):
-        views[xfile] = view_of(home, xvar)
+        views[xfile] = view_of(home, xvar, own)
     hc = os.path.join(home, ".ssh", "config")
     if os.path.isfile(hc):
-        views[hc] = view_of(home, hvar)
+        views[hc] = view_of(home, hvar, own)
     if os.path.isfile(ETC_CFG):
         views[ETC_CFG] = dict(w.etc)
     cand = {key, cfg if isinstance(cfg, str) else "", kh if isinstance(kh, str) else "", "~/.ssh/config", ETC_CFG,
@@ -385,14 +388,11 @@ def driver_class(transport, cls):
     return AsyncDriver if a else Driver
 
 
-def run_real(kw, home, cls):
-    """construct the driver; -> observables dict or {"err": kind}"""
+def construct_real(kw, cls):
+    """construct the driver -> driver object, or {"err": kind}"""
     from scrapli.exceptions import ScrapliValueError
-    from scrapli.ssh_config import SSHConfig
-    os.environ["HOME"] = home
-    SSHConfig._config_files.clear()      # the parse cache is keyed by path only; `~` in IdentityFile depends on HOME
     try:
-        d = driver_class(kw["transport"], cls)(**kw)
+        return driver_class(kw["transport"], cls)(**kw)
     except ScrapliValueError as e:
         m = str(e)
         if "got nothing" in m:
@@ -404,18 +404,88 @@ def run_real(kw, home, cls):
         return {"err": "EXC:ScrapliValueError:" + m[:80]}
     except Exception as e:  # noqa
         return {"err": f"EXC:{type(e).__name__}:{str(e)[:80]}"}
+
+
+def observe(d, transport):
+    """the property-relevant observables of a constructed driver"""
+    import dataclasses
+    if isinstance(d, dict):
+        return d
     t = d.transport
     b = t._base_transport_args
-    import dataclasses
     obs = {"host": d.host, "port": d.port, "user": d.auth_username, "password": d.auth_password, "key": d.auth_private_key,
            "passphrase": d.auth_private_key_passphrase, "strict": d.auth_strict_key, "cfg": d.ssh_config_file,
            "kh": d.ssh_known_hosts_file, "bta_host": b.host, "bta_port": b.port, "same_bta": b is d._base_transport_args,
            "plugin": [(f.name, getattr(t.plugin_transport_args, f.name)) for f in dataclasses.fields(t.plugin_transport_args)],
            "argv": None}
-    if kw["transport"] == "system":
+    if transport == "system":
         t._build_open_cmd()
+        first_cmd = list(t.open_cmd)
+        t._build_open_cmd()                     # building the command twice must give the same command
         obs["argv"] = list(t.open_cmd)
+        if first_cmd != obs["argv"]:
+            obs["argv_unstable"] = first_cmd
     return obs
+
+
+def run_real(kw, home, cls):
+    """construct the driver in a process that has parsed no ssh config yet; -> observables dict or {"err": kind}"""
+    from scrapli.ssh_config import SSHConfig
+    os.environ["HOME"] = home
+    SSHConfig._config_files.clear()      # isolation: the parse cache is process-wide (histories keep it, see run_history)
+    return observe(construct_real(kw, cls), kw["transport"])
+
+
+def cache_snapshot():
+    """the process-wide cache of parsed ssh configs, as data"""
+    from scrapli.ssh_config import SSHConfig
+    return {p: {k: (h.port, h.user, h.identity_file, h.hostname) for k, h in cfg.hosts.items()}
+            for p, cfg in SSHConfig._config_files.items()}
+
+
+def run_history(w, steps, share_opts):
+    """construct the drivers of `steps` one after the other in ONE process state (the cache of parsed ssh configs is
+    cleared once, before the first), keeping all of them alive.
+    -> (materialised steps, observables at construction, observables re-read at the end, problems)"""
+    import copy
+    from scrapli.ssh_config import SSHConfig
+    mats = [materialise(w, c) for c in steps]
+    home = mats[0][1]
+    os.environ["HOME"] = home
+    SSHConfig._config_files.clear()
+    problems = []
+    shared, snap = None, None
+    if share_opts:
+        ex = [m[0].get("transport_options") for m in mats if m[0].get("transport_options") is not None]
+        if ex:
+            shared = ex[0]                      # the user hands the SAME dict object to several drivers
+            snap = copy.deepcopy(shared)
+    drivers, at = [], []
+    for (kw, _, facts), c in zip(mats, steps):
+        kw = dict(kw)
+        if shared is not None and "transport_options" in kw:
+            if kw["transport_options"] != snap:
+                kw.pop("transport_options")
+            else:
+                kw["transport_options"] = shared
+        d = construct_real(kw, c["cls"])
+        drivers.append(d)
+        at.append(observe(d, c["transport"]))
+    end = [observe(d, c["transport"]) for d, c in zip(drivers, steps)]
+    if shared is not None and shared != snap:
+        problems.append(("transport-options-mutated", f"the caller's transport_options dict was changed: {snap} -> {shared}"))
+    # the parsed configs in the cache still say what the files say
+    cached = cache_snapshot()
+    for path, entries in cached.items():
+        try:
+            fresh = SSHConfig(path)
+        except Exception:
+            continue
+        want = {k: (h.port, h.user, h.identity_file, h.hostname) for k, h in fresh.hosts.items()}
+        if want != entries:
+            diff = {k: (entries.get(k), want.get(k)) for k in set(entries) | set(want) if entries.get(k) != want.get(k)}
+            problems.append(("shared-cache-mutated", f"cached parse of {path or '<no file>'} no longer equals the file: {diff}"))
+    return mats, at, end, problems
 
 
 # ---------------------------------------------------------------- model request / reply
@@ -555,6 +625,8 @@ def oracle(ck, c, facts, obs, viol):
     # -- what is in effect
     if t == "system":
         argv = obs["argv"]
+        if "argv_unstable" in obs:
+            viol("argv-unstable", f"_build_open_cmd() gave {obs['argv_unstable']} first and {argv} when called again", **base)
         try:
             p = parse_ssh_argv(argv)
         except ArgvError as e:
@@ -686,6 +758,73 @@ def gen_random(rng):
               extra=rng.choice([0] * 8 + [1, 2, 3, 4, 5]) if t == "system" else 0)
 
 
+# ---------------------------------------------------------------- histories: several drivers in one process
+H_OWNERS = ["dev1", "DEV1.example.COM", "10.0.0.1", "dév1"]
+H_OTHERS = ["core9", "edge-2"]                   # served by `Host *` only
+HIST_SHARED = ("home", "hvar", "xvar", "owner", "extra")
+
+
+def gen_history_pairs():
+    """small scope, complete: every ordered pair of (transport x explicit/omitted port x user x key) against one config
+    file that has Port, User and IdentityFile for the host"""
+    tmpl = [dict(transport=t, port=p, user=u, key=k) for t, p, u, k in
+            itertools.product(("paramiko", "asyncssh", "system"), (None, 830), ("", "admin"), ("", "A"))]
+    for a, b in itertools.product(tmpl, tmpl):
+        yield {"steps": [mk(cfg="P", xvar=4, owner="dev1", **a), mk(cfg="P", xvar=4, owner="dev1", **b)], "share_opts": False}
+
+
+def gen_history(rng):
+    owner = rng.choice(H_OWNERS)
+    shared = dict(owner=owner, home=rng.choice(HOMES), hvar=rng.randrange(len(VARIANTS)), xvar=rng.randrange(len(VARIANTS)),
+                  extra=rng.choice([0, 0, 0, 1, 3]))
+    cfg_modes = rng.choice([["P"], ["P"], ["T"], ["F"], ["P", "T"], ["H", "T"], ["M"], ["P", "F"], ["E"]])
+    steps = []
+    for _ in range(rng.choice([2, 2, 3])):
+        t = rng.choice(("paramiko", "paramiko", "asyncssh", "ssh2", "system", "system", "telnet"))
+        steps.append(mk(transport=t, host=rng.choice([owner, owner, owner, " " + owner, rng.choice(H_OTHERS)]),
+                        port=rng.choice([None, None, 830, 22, 2200]), user=rng.choice(["", "", "admin", "bob"]),
+                        key=rng.choice(["", "", "A", "H"]) if shared["home"] != "empty" else rng.choice(["", "", "A"]),
+                        password=rng.choice(["", "pw"]), strict=rng.random() < 0.6, cfg=rng.choice(cfg_modes),
+                        kh=rng.choice(["F", "T", "P"]), **{**shared, "extra": shared["extra"] if t == "system" else 0}))
+    return {"steps": steps, "share_opts": rng.random() < 0.7}
+
+
+def evaluate_history(ck, w, h, collect):
+    """run a history on the real code; the oracle: every driver satisfies C17 on its own AND is what the same
+    construction gives in a fresh process state (independent of earlier constructions / order), no shared object is
+    changed, nothing an earlier driver reports changes later.  -> (mats, observables at construction) or None"""
+    steps = h["steps"]
+    mats, at, end, problems = run_history(w, steps, h.get("share_opts", False))
+    if len({m[1] for m in mats}) != 1:
+        return None                                   # not one process environment (generator bug): skip
+    hist = [{k: c[k] for k in list(FIELDS) + ["owner"] if k in c} for c in steps]
+
+    def rec(i, kind, what, **extra):
+        collect.append(({**steps[i], "kind": kind, "history": hist, "step": i, "share_opts": h.get("share_opts", False), **extra}, what))
+    for i, (c, (kw, home, facts)) in enumerate(zip(steps, mats)):
+        iso = run_real(kw, home, c["cls"])
+        if canon_real(at[i]) != canon_real(iso):
+            rec(i, "history-dependence",
+                f"driver #{i + 1} of {len(steps)} constructed in one process differs from the same construction alone: "
+                f"{_diff_obs(at[i], iso)}")
+        if canon_real(end[i]) != canon_real(at[i]):
+            rec(i, "changed-by-later-construction", f"driver #{i + 1} changed after later constructions: {_diff_obs(end[i], at[i])}")
+        oracle(ck, c, facts, at[i], lambda kind, what, _i=i, **extra: rec(_i, kind, what, **extra))
+    for kind, what in problems:
+        rec(len(steps) - 1, kind, what)
+    return mats, at
+
+
+def _diff_obs(a, b):
+    if "err" in a or "err" in b:
+        return f"{a.get('err', 'constructed')} vs {b.get('err', 'constructed')}"
+    return "; ".join(f"{k}: {a[k]!r} vs alone {b[k]!r}" for k in a if k in b and a[k] != b[k])
+
+
+def history_line(fx, h, mats):
+    return "hist " + "|".join("+".join(model_line(fx, c, m[2]).split(" ")[1:]) for c, m in zip(h["steps"], mats))
+
+
 def gen_argv(rng):
     """random ssh command lines for the grammar cross-check (model vs oracle parser vs real ssh)"""
     words = ["ssh"]
@@ -785,7 +924,12 @@ def run(tier, seed):
                "Lean model on the same arguments and file-system view; non-trivial = ssh transport with an ssh config entry, a key, "
                "a non-plain host or an explicit port. Oracle = independent Python statement: reported == dialed on the argument "
                "objects, precedence table, documented file resolution, and an independent OpenSSH argv parser; real `ssh -G` as a "
-               "third opinion on the grammar.")
+               "third opinion on the grammar. HISTORIES: 2-3 drivers constructed one after the other in ONE process state (shared cache of parsed "
+               "ssh configs, same transport_options dict object), all 576 ordered pairs of (paramiko|asyncssh|system x explicit/omitted port "
+               "x user x key) on one config + PRNG histories (mixed transports, same host / other host of the same `Host *` block, "
+               "ssh_config_file path|True|False|missing): each driver must equal the same construction alone, nothing reported by an "
+               "earlier driver may change, the cached parse must still equal the file, the caller's dict must be unchanged; the model's "
+               "runHistory is compared with the real sequence.")
     ck.trusted = ["Lean 4.33.0 kernel; axioms of every theorem audited ⊆ {propext, Classical.choice, Quot.sound}",
                   "tools/gen/c17.py (constructor defaults, default ports, transports consulting the ssh config, magic strings, "
                   "fall-back paths, PluginTransportArgs field names, argv literals read off the real _build_open_cmd)",
@@ -887,6 +1031,32 @@ def _run(ck, w, tier):
         lines.append(model_line("".join("1" if flags[n] else "0" for n in FLAG_ORDER), c, facts))
         reals.append((c, facts, obs))
     ck.extra["advisory_cases_depending_on_uncontrolled_etc_ssh_config"] = advisory
+    # 5b histories: several drivers in one process sharing the cache of parsed ssh configs (and option dicts)
+    hists = [{"steps": [mk(**st) for st in hc["steps"]], "share_opts": hc.get("share_opts", False)}
+             for hc in json.load(open(VERIF / "corpus" / "C17" / "histories.json"))]
+    hists += list(gen_history_pairs())
+    hists += [gen_history(ck.rng) for _ in range(700 if tier == "quick" else 9000)]
+    hist_runs = []
+    for h in hists:
+        got = []
+        r = evaluate_history(ck, w, h, got)
+        if r is None:
+            continue
+        mats, at = r
+        st = h["steps"]
+        ck.case(("history", tuple(tuple(sorted((k, str(v)) for k, v in c.items())) for c in st)),
+                nontrivial=any(c["port"] is not None or c["user"] or c["key"] for c in st[:-1]),
+                sample={"history": [{k: c[k] for k in ("transport", "host", "port", "user", "key", "cfg")} for c in st]},
+                tags=(f"history-len={len(st)}", "history-same-host" if len({c["host"].strip() for c in st}) == 1 else "history-mixed-hosts",
+                      "history-explicit-then-omitted" if any((a["port"] is not None and b["port"] is None) or (a["user"] and not b["user"])
+                                                            or (a["key"] and not b["key"]) for a, b in zip(st, st[1:])) else "history-other"))
+        for vc, what in got:
+            ck.violation(vc, what, matcher)
+        hist_runs.append((h, mats, at))
+    fxs = "".join("1" if flags[n] else "0" for n in FLAG_ORDER)
+    n_single = len(lines)
+    lines += [history_line(fxs, h, mats) for h, mats, _ in hist_runs]
+    ck.extra["histories"] = len(hist_runs)
     # grammar cross-check inputs
     argvs = [gen_argv(ck.rng) for _ in range(600 if tier == "quick" else 6000)]
     argvs += [o["argv"] for _, _, o in reals[:400] if o.get("argv")]
@@ -913,7 +1083,13 @@ def _run(ck, w, tier):
                     ck.disagree("parseSshArgv model vs oracle parser", c, f"argv={obs['argv']} model={mpr} oracle={enc_parse(obs['argv'])}")
             if ok:
                 ck.traces_validated += 1
-        base = len(reals)
+        for (h, mats, at), ml in zip(hist_runs, mout[n_single:n_single + len(hist_runs)]):
+            real = " || ".join(canon_real(o) for o in at)
+            if real != ml:
+                ck.disagree("runHistory model vs drivers constructed in one process", {"history": h["steps"]}, f"impl={real} model={ml}")
+            else:
+                ck.traces_validated += 1
+        base = n_single + len(hist_runs)
         for a, ml in zip(argvs, mout[base:]):
             if ml != enc_parse(a):
                 ck.disagree("parseSshArgv model vs oracle parser", {"argv": a}, f"model={ml} oracle={enc_parse(a)}")
@@ -955,6 +1131,8 @@ def _run(ck, w, tier):
 def _shrink(ck, w, v):
     """minimise the first violation: reset argument after argument to its default while the same kind of
     violation (not attributable to a known finding) is still observed"""
+    if "history" in v["case"]:
+        return _shrink_history(ck, w, v)
     c = {k: v["case"][k] for k in FIELDS}
     kind, best = v["case"]["kind"], v
 
@@ -976,6 +1154,43 @@ def _shrink(ck, w, v):
         r = still(cc)
         if r is not None:
             c, best = cc, r
+    return best
+
+
+def _shrink_history(ck, w, v):
+    """drop steps, then reset arguments to their defaults, while a violation of the same kind is still observed"""
+    kind = v["case"]["kind"]
+    h = {"steps": [mk(**st) for st in v["case"]["history"]], "share_opts": v["case"].get("share_opts", False)}
+    best = v
+
+    def still(hh):
+        got = []
+        try:
+            if evaluate_history(ck, w, hh, got) is None:
+                return None
+        except Exception:
+            return None
+        for vc, what in got:
+            if vc["kind"] == kind and matcher(vc) is None:
+                return {"what": what, "case": vc}
+        return None
+    j = 0
+    while len(h["steps"]) > 1 and j < len(h["steps"]):
+        hh = {**h, "steps": h["steps"][:j] + h["steps"][j + 1:]}
+        r = still(hh)
+        if r is not None:
+            h, best = hh, r
+        else:
+            j += 1
+    for i in range(len(h["steps"])):
+        for f in FIELDS:
+            if f in ("transport",) + HIST_SHARED or h["steps"][i][f] == DEFAULT[f]:
+                continue
+            hh = {**h, "steps": [dict(st) for st in h["steps"]]}
+            hh["steps"][i][f] = DEFAULT[f]
+            r = still(hh)
+            if r is not None:
+                h, best = hh, r
     return best
 
 
@@ -1219,6 +1434,15 @@ def replay(path):
                 print("VIOLATES:", x["case"]["kind"], "-", x["what"])
             print(ck.extra.get("loopback_dial"))
             return 1 if ck.violations else 0
+        if "history" in v:
+            h = {"steps": [mk(**st) for st in v["history"]], "share_opts": v.get("share_opts", False)}
+            got = []
+            r = evaluate_history(ck, w, h, got)
+            for i, ((kw, home, _), o) in enumerate(zip(*r)):
+                print(f"driver #{i + 1}: {kw}\n   observed: {json.dumps(o, default=str)}")
+            for vc, what in got:
+                print("VIOLATES:", vc["kind"], f"(driver #{vc['step'] + 1}) -", what, "| finding:", matcher(vc))
+            return 1 if got else 0
         c = mk(**{k: v[k] for k in FIELDS if k in v})
         got = []
         kw, home, facts, obs = evaluate(ck, w, c, got)
